@@ -120,6 +120,21 @@ def run(ctx):
         ok = bool(inner) and len(inner) == len(allc) and uncond
   ctx.check(ok, 'C04.scope', construct(sw), 'a scoped reference calls the configurable inside `with config_scope(<its scope components>)`',
             'the scoping wrapper does not (on every path) enter config_scope with the reference\'s own scope list around the call: under some ambient scopes the reference runs under the ambient scope instead of exactly its own', sw.loc(), instance='enter')
+  # two references to one configurable written with different scopes are equal by __eq__ (which ignores how a reference is
+  # spelled) and are kept apart as dict keys only by their hash: the hash has to see the scope
+  hm = cr.methods.get('__hash__')
+  if hm is not None:
+    reads = set()
+    for r_ in [x for x in walk_local(hm.node) if isinstance(x, ast.Return) and x.value is not None]:
+      for x in ast.walk(r_.value):
+        if isinstance(x, ast.Attribute) and isinstance(x.value, ast.Name) and x.value.id == hm.params[0]:
+          reads.add(x.attr)
+        if isinstance(x, ast.Call) and u(x.func) in ('repr', 'str') and x.args and u(x.args[0]) == hm.params[0]:
+          reads.add('<repr>')
+    scope_aware = bool(reads & {'<repr>', '_scopes', 'scopes', '_scoped_selector', 'scoped_selector', 'config_key'})
+    ctx.check(scope_aware, 'C04.scope', construct(hm), 'the hash of a reference depends on its scope (differently scoped references stay distinct dict keys)',
+              'ConfigurableReference.__hash__ reads only %s: `{@a/f(): 1, @b/f(): 2}` collapses to one key (equality ignores the scope), so one of the '
+              'references is silently dropped and never called under its scope' % sorted(reads), hm.loc(), instance='hash-sees-scope')
   init = cr.methods.get('initialize')
   star = [n for n in walk_local(init.node) if isinstance(n, ast.Assign) and isinstance(n.targets[0], ast.Tuple)
           and any(isinstance(e, ast.Starred) and u(e.value) == 'self._scopes' for e in n.targets[0].elts)
